@@ -6,6 +6,10 @@
 (*   entry     "boot" (first_entry: build, then re-dispatch) | "gen"       *)
 (*   compiled  the _compiled flag                                          *)
 (*   cur       id of the table object currently in self.map                *)
+(*   gmap      id of the table the generated entry point dispatches over   *)
+(*             (bound into the entry point's globals by the swap; a call   *)
+(*             already running the generated code keeps using it while a   *)
+(*             later build fills a new self.map)                           *)
 (*   tbl       table id -> bag of method ids registered in it              *)
 (*   lockh     holder of the build lock (0 = free)          [UseLock]      *)
 (*   regd      the registered method set (Unregister removes)              *)
@@ -18,7 +22,7 @@
 (* a raising user hook, an interrupt); RestoreOnFail = the handler that    *)
 (* puts the bootstrap entry back and clears _compiled.                     *)
 (*                                                                         *)
-(* A call through the generated entry dispatches over tbl[cur] as it is    *)
+(* A call through the generated entry dispatches over tbl[gmap] as it is   *)
 (* at that moment.  Methods are abstract: method ids are ranks, the        *)
 (* correct answer is the highest registered id, a method registered twice  *)
 (* in one table makes the answer "ambiguous", an empty table "nomethod".   *)
@@ -29,8 +33,8 @@ EXTENDS Naturals, Integers, Sequences, FiniteSets, TLC
 CONSTANTS Threads, NMeth, BadM, MaxFail,
           SwapLast, RestoreOnFail, UseLock, CallsPer
 
-VARIABLES entry, compiled, cur, tbl, lockh, regd, pc, k, res, todo, nfail, ntbl
-vars == <<entry, compiled, cur, tbl, lockh, regd, pc, k, res, todo, nfail, ntbl>>
+VARIABLES entry, compiled, cur, gmap, tbl, lockh, regd, pc, k, res, todo, nfail, ntbl
+vars == <<entry, compiled, cur, gmap, tbl, lockh, regd, pc, k, res, todo, nfail, ntbl>>
 
 Meths == 1..NMeth
 Bag0 == [m \in Meths |-> 0]
@@ -48,7 +52,7 @@ Correct == IF regd = {} THEN NoMeth ELSE CHOOSE m \in regd : \A o \in regd : o <
 Buildable == BadM \notin regd
 
 Init ==
-  /\ entry = "boot" /\ compiled = FALSE /\ cur = 0 /\ tbl = <<>> /\ lockh = 0
+  /\ entry = "boot" /\ compiled = FALSE /\ cur = 0 /\ gmap = 0 /\ tbl = <<>> /\ lockh = 0
   /\ regd = Meths
   /\ pc = [t \in Threads |-> "idle"] /\ k = [t \in Threads |-> 0]
   /\ res = [t \in Threads |-> <<>>] /\ todo = [t \in Threads |-> CallsPer]
@@ -61,13 +65,13 @@ StartCall(t) ==
   /\ IF entry = "boot"
      THEN pc' = [pc EXCEPT ![t] = IF UseLock THEN "acquire" ELSE "newmap"]
      ELSE pc' = [pc EXCEPT ![t] = "dispatch"]
-  /\ UNCHANGED <<entry, compiled, cur, tbl, lockh, regd, k, res, nfail, ntbl>>
+  /\ UNCHANGED <<entry, compiled, cur, gmap, tbl, lockh, regd, k, res, nfail, ntbl>>
 
 Acquire(t) ==
   /\ pc[t] = "acquire" /\ lockh = 0
   /\ lockh' = t
   /\ pc' = [pc EXCEPT ![t] = IF compiled THEN "release" ELSE "newmap"]
-  /\ UNCHANGED <<entry, compiled, cur, tbl, regd, k, res, todo, nfail, ntbl>>
+  /\ UNCHANGED <<entry, compiled, cur, gmap, tbl, regd, k, res, todo, nfail, ntbl>>
 
 NewMap(t) ==
   /\ pc[t] = "newmap"
@@ -75,17 +79,17 @@ NewMap(t) ==
   /\ cur' = ntbl + 1
   /\ tbl' = [j \in 1..(ntbl + 1) |-> IF j = ntbl + 1 THEN Bag0 ELSE tbl[j]]
   /\ pc' = [pc EXCEPT ![t] = "analyze"]
-  /\ UNCHANGED <<entry, compiled, lockh, regd, k, res, todo, nfail>>
+  /\ UNCHANGED <<entry, compiled, gmap, lockh, regd, k, res, todo, nfail>>
 
 Analyze(t) ==
   /\ pc[t] = "analyze"
   /\ pc' = [pc EXCEPT ![t] = IF SwapLast THEN "reg" ELSE "swap"]
   /\ k' = [k EXCEPT ![t] = 1]
-  /\ UNCHANGED <<entry, compiled, cur, tbl, lockh, regd, res, todo, nfail, ntbl>>
+  /\ UNCHANGED <<entry, compiled, cur, gmap, tbl, lockh, regd, res, todo, nfail, ntbl>>
 
 Swap(t) ==
   /\ pc[t] = "swap"
-  /\ entry' = "gen"
+  /\ entry' = "gen" /\ gmap' = cur
   /\ pc' = [pc EXCEPT ![t] = IF SwapLast THEN "setcompiled" ELSE "reg"]
   /\ UNCHANGED <<compiled, cur, tbl, lockh, regd, k, res, todo, nfail, ntbl>>
 
@@ -107,48 +111,49 @@ RegisterOne(t) ==
                /\ UNCHANGED <<entry, compiled, lockh, pc, res>>
      ELSE /\ k' = [k EXCEPT ![t] = @ + 1]
           /\ UNCHANGED <<entry, compiled, lockh, pc, res, tbl>>
-  /\ UNCHANGED <<cur, regd, todo, nfail, ntbl>>
+  /\ UNCHANGED <<cur, gmap, regd, todo, nfail, ntbl>>
 
 EndReg(t) ==
   /\ pc[t] = "reg" /\ k[t] > NMeth
   /\ pc' = [pc EXCEPT ![t] = IF SwapLast THEN "swap" ELSE "setcompiled"]
-  /\ UNCHANGED <<entry, compiled, cur, tbl, lockh, regd, k, res, todo, nfail, ntbl>>
+  /\ UNCHANGED <<entry, compiled, cur, gmap, tbl, lockh, regd, k, res, todo, nfail, ntbl>>
 
 SetCompiled(t) ==
   /\ pc[t] = "setcompiled"
   /\ compiled' = TRUE
   /\ pc' = [pc EXCEPT ![t] = IF UseLock THEN "release" ELSE "dispatch"]
-  /\ UNCHANGED <<entry, cur, tbl, lockh, regd, k, res, todo, nfail, ntbl>>
+  /\ UNCHANGED <<entry, cur, gmap, tbl, lockh, regd, k, res, todo, nfail, ntbl>>
 
 Release(t) ==
   /\ pc[t] = "release"
   /\ lockh' = 0
   /\ pc' = [pc EXCEPT ![t] = "dispatch"]
-  /\ UNCHANGED <<entry, compiled, cur, tbl, regd, k, res, todo, nfail, ntbl>>
+  /\ UNCHANGED <<entry, compiled, cur, gmap, tbl, regd, k, res, todo, nfail, ntbl>>
 
 Dispatch(t) ==
   /\ pc[t] = "dispatch"
-  /\ res' = [res EXCEPT ![t] = Append(@, Answer(tbl[cur]))]
+  /\ res' = [res EXCEPT ![t] = Append(@, Answer(tbl[gmap]))]
   /\ pc' = [pc EXCEPT ![t] = "idle"]
-  /\ UNCHANGED <<entry, compiled, cur, tbl, lockh, regd, k, todo, nfail, ntbl>>
+  /\ UNCHANGED <<entry, compiled, cur, gmap, tbl, lockh, regd, k, todo, nfail, ntbl>>
 
 (* an exception / interrupt at an arbitrary point of a build *)
 Fail(t) ==
   /\ nfail < MaxFail
-  /\ pc[t] \in {"newmap", "analyze", "swap", "reg", "setcompiled"}
+  \* "release": between _compiled = True and the end of compile() the handler still applies
+  /\ pc[t] \in {"newmap", "analyze", "swap", "reg", "setcompiled"} \cup (IF UseLock /\ lockh = t THEN {"release"} ELSE {})
   /\ nfail' = nfail + 1
   /\ res' = [res EXCEPT ![t] = Append(@, Config)]
   /\ IF RestoreOnFail THEN entry' = "boot" /\ compiled' = FALSE ELSE UNCHANGED <<entry, compiled>>
   /\ lockh' = IF lockh = t THEN 0 ELSE lockh
   /\ pc' = [pc EXCEPT ![t] = "idle"]
-  /\ UNCHANGED <<cur, tbl, regd, k, todo, ntbl>>
+  /\ UNCHANGED <<cur, gmap, tbl, regd, k, todo, ntbl>>
 
 (* the offending method is removed (function not yet successfully built:     *)
 (* _update does not rebuild, the next call does)                             *)
 RemoveBad ==
   /\ BadM \in regd /\ \A t \in Threads : pc[t] = "idle"
   /\ regd' = regd \ {BadM}
-  /\ UNCHANGED <<entry, compiled, cur, tbl, lockh, pc, k, res, todo, nfail, ntbl>>
+  /\ UNCHANGED <<entry, compiled, cur, gmap, tbl, lockh, pc, k, res, todo, nfail, ntbl>>
 
 AllDone == \A t \in Threads : pc[t] = "idle" /\ todo[t] = 0
 Done == AllDone /\ UNCHANGED vars
@@ -169,17 +174,17 @@ Spec == Init /\ [][Next]_vars
 (* build itself (Fail / the invalid method).                                 *)
 AnswersCorrect ==
   [][\A t \in Threads :
-       (pc[t] = "dispatch" /\ pc'[t] = "idle") => (Buildable /\ Answer(tbl[cur]) = Correct)]_vars
+       (pc[t] = "dispatch" /\ pc'[t] = "idle") => (Buildable /\ Answer(tbl[gmap]) = Correct)]_vars
 
 (* C19 (MaxFail = 0, BadM = 0): every call returns what it would alone *)
 EachAsAlone ==
   \A t \in Threads : \A j \in DOMAIN res[t] : res[t][j] = Correct \/ res[t][j] = Config
 
 FinalStateCorrect ==
-  AllDone => (entry = "gen" => (compiled /\ Buildable /\ Answer(tbl[cur]) = Correct))
+  AllDone => (entry = "gen" => (compiled /\ Buildable /\ Answer(tbl[gmap]) = Correct))
 
 (* after the offender is gone and no more faults strike, calls succeed *)
 RecoversAfterRemoval ==
   [][\A t \in Threads :
-       (pc[t] = "dispatch" /\ pc'[t] = "idle" /\ BadM \notin regd) => Answer(tbl[cur]) = Correct]_vars
+       (pc[t] = "dispatch" /\ pc'[t] = "idle" /\ BadM \notin regd) => Answer(tbl[gmap]) = Correct]_vars
 =============================================================================
